@@ -16,7 +16,7 @@ Line-protocol driver of the C14 model (ByteStream / CAS / AC services and the CA
     bread <call> [; <bad> <hash> <size>]*
     fmb <call> [; <bad> <hash> <size>]*
     acput <call> <hash> <size> <hex> | acget <call> <hash> <size>
-    cput <z 0|1> <hash> <size> <hex> | cget <z> <hash> <size> | cfm [; <hash> <size>]*
+    cput <z 0|1> <hash> <size> <hex> | cget <z> <hash> <size> | cfm [; [<function.instance>] <hash> <size>]*
     dump
 
 `H` is SHA-256 (implemented below); kind tokens may carry a harness-only
@@ -322,10 +322,24 @@ def step (s : S) (line : String) : S × String :=
         | .error e => s!"err {showErr e}")
     | _, _ => (s, "bad-op")
   | "cfm" :: rest =>
-    match (sections? rest).bind (·.mapM fun ws => match ws with | [h, sz] => digest? h sz | _ => none) with
-    | some ds =>
-      (s, match clientFindMissing (storeMissing s.cas s.fmFault) ds with
-        | .ok ds => " ".intercalate ("ok" :: ds.map showKey)
+    -- entries: <hash> <size> (SHA-256, empty instance name) or <function.instance> <hash> <size>
+    let ent? (ws : List String) : Option (String × Digest) :=
+      match ws with
+      | [h, sz] => (digest? h sz).map fun d => ("sha256.-", d)
+      | [tag, h, sz] => (digest? h sz).map fun d => (tag, d)
+      | _ => none
+    match (sections? rest).bind (·.mapM ent?) with
+    | some es =>
+      -- one partition per (digest function, instance name), in order of first appearance
+      let tags := es.foldl (fun acc e => if acc.contains e.1 then acc else acc ++ [e.1]) ([] : List String)
+      let groups := tags.map fun t => (es.filter (·.1 == t)).map (·.2)
+      -- the answer is a set of digests; it is printed per partition (a digest requested under two
+      -- instance names is missing under both or under neither)
+      (s, match clientFindMissingP (storeMissing s.cas s.fmFault) groups with
+        | .ok ms =>
+          let keys := (tags.zip groups).flatMap fun (t, g) =>
+            ((dedup g).filter (ms.contains ·)).map fun d => s!"{t}/{showKey d}"
+          " ".intercalate ("ok" :: keys)
         | .error e => s!"err {showErr e}")
     | none => (s, "bad-op")
   | ["dump"] => (s, s!"cas {showStore s.cas} | ac {showStore s.ac}")
